@@ -71,6 +71,7 @@ theorem repDisconnect_spec {s : State} (h : Inv s) (r : Nat) (he : (repDisconnec
 
 /-- a representation with a parent belongs to a variable that is referred to, hence not owned: it survives -/
 theorem repDisconnect_slot {s : State} (h : Inv s) {v r : Nat} (hv : repOf s v = some r)
+    (hnm : v < anonBase)
     (he : (repDisconnect r s).err = false) : (repDisconnect r s).slots v = s.slots v := by
   obtain ⟨hC, -⟩ := repDisconnect_spec h r he
   obtain ⟨R, hR⟩ := h.repAlive v r hv
@@ -78,8 +79,18 @@ theorem repDisconnect_slot {s : State} (h : Inv s) {v r : Nat} (hv : repOf s v =
   | none =>
     rw [repDisconnect_eq]; simp only [hR, hp]; rfl
   | some p =>
-    obtain ⟨P, fid, hP, hPf⟩ := h.parentOk r R p v hR hp hv
-    exact hC.slotsKeep v (h.refOk p P fid v hP hPf).2
+    obtain ⟨P, f, hP, hPf, hfr⟩ := h.parentOk r R p v hR hp hv
+    cases f with
+    | sref fid w =>
+      simp only [Fun.ref, Option.some.injEq] at hfr
+      subst hfr
+      exact hC.slotsKeep _ (h.refOk p P fid _ hP hPf).2.2
+    | nest fid w d =>
+      simp only [Fun.ref, Option.some.injEq] at hfr
+      subst hfr
+      have := (h.nestOk p P fid _ d hP hPf).1
+      omega
+    | _ => simp [Fun.ref] at hfr
 
 /-! ### `trkNotify` -/
 
@@ -225,7 +236,7 @@ theorem inv_swapVar {s : State} (h : Inv s) {v q : Nat} {Q : Rep}
     · subst hwv; rw [hv] at hw; cases hw; exact absurd rfl hrq
     · rw [if_neg hwv]; exact hw
   refine { repAlive := ?_, repUniq := ?_, connReg := ?cr, cbsConn := ?cc, regUniq := ?_, cbsNodup := ?_,
-           parentOk := ?_, trkReg := ?_, trkEnt := ?_, trkNodup := ?_, refOk := ?_, ownOk := ?_, repBound := ?_ }
+           parentOk := ?_, trkReg := ?_, trkEnt := ?_, trkNodup := ?_, refOk := ?_, ownOk := ?_, nestOk := ?_, anonBound := ?_, repBound := ?_ }
   case cr =>
     intro c w hcw
     rw [hc c] at hcw
